@@ -17,7 +17,9 @@ R08.3  cast table: each of the 10 casts wraps in the fragment its type / ext-dat
 R08.4  insert_elem refuses malleable elements and elements that fail the context's local validity check
 R08.5  best_compilation returns only a B element whose type is signed and non-malleable
 R08.6  the policy cache key (Ord of concrete policies) distinguishes every payload (rule shared with C19)
-R08.7  the per-context limit checks behind check_local_validity pair figures and limits correctly (rule shared with C09)"""
+R08.7  the per-context limit checks behind check_local_validity pair figures and limits correctly (rule shared with C09)
+R08.8  the pre-compilation validity gate (check_timelocks) refuses exactly the policies with a mixed-lock path and
+       lift keeps the truth table (rule shared with C18)"""
 
 import itertools
 import os
@@ -544,6 +546,10 @@ def check_shared_mechanisms(chk, F):
     from . import c19, limits
     c19.check_policy_ord(RuleAlias(chk, {"R19.5": "R08.6"}, "the compiler's policy cache is keyed by Ord of the policy: "
                                                             "distinct sub-policies must never compare Equal"), F)
+    from . import c18
+    c18.check_concrete(RuleAlias(chk, {"R18.6": "R08.8"}, "every compile entry point first runs is_valid -> check_timelocks; "
+                                                          "a policy with an unspendable mixed-lock path must be refused "
+                                                          "there, or the compiled output fails its own sanity rules"), F)
     limits.check_context_limits(RuleAlias(chk, {"R09.3": "R08.7"}, "insert_elem discards what check_local_validity "
                                                                    "refuses: the per-context resource checks must "
                                                                    "compare the right figure with the right limit"), F)
